@@ -84,6 +84,7 @@ func registerAll() {
 	reg("L18", "encodability of inlined containers: for every slab size, a slab cannot hold more inlined containers than the one-byte inlined-extra-data index can address (affine bound over setThreshold)", ruleL18)
 	reg("I4", "removal keeps order: no Remove of an element list or array data slab moves an element to another position by an element store (swap-remove)", ruleI4)
 	reg("L19", "CBOR head width table: GetUintCBORSize agrees with the encoder's head widths (1/2/3/5/9 bytes at 23, 2^8-1, 2^16-1, 2^32-1) on every interval of uint64 cut by the constants it compares with", ruleL19)
+	reg("L20", "type-info references are resolved for every kind of inlined extra data: wherever the reference-resolving decoder is built, every callee handed a TypeInfoDecoder receives it (not the plain decoder)", ruleL20)
 	reg("I2", "iterator cursor advance: every exit of a Next/next method that hands out an element is preceded on all paths by a write of the iterator's cursor state (own field, nested iterator, or delegation to its own Next)", ruleI2)
 	reg("I3", "range validation: the range iterator constructors reject start > end and bounds beyond the count", ruleI3)
 
